@@ -1,7 +1,6 @@
 package sim
 
 import (
-	"errors"
 	"fmt"
 	"io"
 	"net"
@@ -138,7 +137,7 @@ type End struct {
 	OnClose         func()
 }
 
-var errClosed = errors.New("use of closed network connection")
+var errClosed = net.ErrClosed // the sentinel the real net package wraps
 
 func newNetwork(e *Engine) *Network { return &Network{e: e} }
 
